@@ -82,18 +82,22 @@ class NDNApp:
         if typ == LpTypeNumber.LP_PACKET:
             try:
                 nack_reason, fragment = parse_lp_packet(data, with_tl=True)
-            except (DecodeError, TypeError, ValueError, struct.error):
+            except (DecodeError, TypeError, ValueError, IndexError, struct.error):
                 self.logger.warning('Unable to decode received packet')
                 return
             data = fragment
-            typ, _ = parse_tl_num(data)
+            try:
+                typ, _ = parse_tl_num(data)
+            except (TypeError, IndexError, struct.error):
+                # IDLE packet (no fragment) or a fragment too short to have a Type
+                return
         else:
             nack_reason = None
 
         if nack_reason is not None:
             try:
                 name, _, _, _ = parse_interest(data, with_tl=True)
-            except (DecodeError, TypeError, ValueError, struct.error):
+            except (DecodeError, TypeError, ValueError, IndexError, struct.error):
                 self.logger.warning('Unable to decode the fragment of LpPacket')
                 return
             if self.logger.isEnabledFor(logging.DEBUG):
@@ -103,7 +107,7 @@ class NDNApp:
             if typ == TypeNumber.INTEREST:
                 try:
                     name, param, app_param, sig = parse_interest(data, with_tl=True)
-                except (DecodeError, TypeError, ValueError, struct.error):
+                except (DecodeError, TypeError, ValueError, IndexError, struct.error):
                     self.logger.warning('Unable to decode received packet')
                     return
                 if self.logger.isEnabledFor(logging.DEBUG):
@@ -112,7 +116,7 @@ class NDNApp:
             elif typ == TypeNumber.DATA:
                 try:
                     name, meta_info, content, sig = parse_data(data, with_tl=True)
-                except (DecodeError, TypeError, ValueError, struct.error):
+                except (DecodeError, TypeError, ValueError, IndexError, struct.error):
                     self.logger.warning('Unable to decode received packet')
                     return
                 if self.logger.isEnabledFor(logging.DEBUG):
